@@ -4,9 +4,9 @@ import RSV.Props.C02
 import RSV.Props.C03
 import RSV.Props.C04all
 import RSV.Props.C05all
-import RSV.Props.C06
+import RSV.Props.C06all
 import RSV.Props.C07
-import RSV.Props.C08
+import RSV.Props.C08all
 import RSV.Props.C09
 import RSV.Props.C10all
 import RSV.Props.C11all
